@@ -119,7 +119,7 @@ Print Assumptions C02_nonvacuous.
 (* CLOSED BUILD (Proofs/ClosedBuild.v): with default-like settings the model with the self-check computed
    inside returns a pattern whose language is exactly the test cases -- no free input, no "if it returns".
    PARTIAL as Props/C08.v C08_selfcheck_admissible_partial: non-verbose, candidate without raw VT/FF. *)
-From Grex Require Proofs.ClosedBuild Proofs.SelfCheckTotal Model.SelfCheck.
+From Grex Require Proofs.ClosedBuild Proofs.SelfCheckTotal Proofs.SelfCheckVerbose Model.SelfCheck.
 Theorem C02_closed_build_total_exact_partial : forall isd is_ws,
   ColourStripBase.digit_ok isd -> ws_ok is_ws ->
   forall (cls0 : cp -> cp -> Prop) c db ws,
@@ -137,3 +137,21 @@ Theorem C02_closed_build_total_exact_partial : forall isd is_ws,
       /\ (L_rast lit_cs cls0 r [] -> In [] ws).
 Proof. exact ClosedBuild.closed_build_total_exact. Qed.
 Print Assumptions C02_closed_build_total_exact_partial.
+
+Theorem C02_closed_build_total_exact_verbose_partial : forall isd is_ws,
+  ColourStripBase.digit_ok isd -> ws_ok is_ws ->
+  forall (cls0 : cp -> cp -> Prop) c db ws,
+    let tcs := normalise c db ws in
+    let cls := grapheme_clusters c db tcs in
+    f_digit c = false /\ f_non_digit c = false /\ f_space c = false /\
+    f_non_space c = false /\ f_word c = false /\ f_non_word c = false ->
+    f_ci c = false -> f_rep c = false ->
+    ws <> [] -> Forall (Forall scalar) ws -> oracle_ok db tcs ->
+    printable c -> f_verbose c = true -> ws_x is_ws ->
+    (forall e1, SelfCheckTotal.cand1 c cls = Some e1 -> SelfCheckTotal.no_vf (SelfCheckVerbose.cand_nv c e1)) ->
+    exists s fl r, SelfCheck.build_closed isd is_ws c db ws = Some s
+      /\ parse is_ws s = Some (fl, r) /\ fl_i fl = false /\ fl_x fl = true
+      /\ (forall u, Forall scalar u -> (u <> [] \/ K4 tcs = false) -> (L_rast lit_cs cls0 r u <-> In u ws))
+      /\ (L_rast lit_cs cls0 r [] -> In [] ws).
+Proof. exact ClosedBuild.closed_build_total_exact_verbose. Qed.
+Print Assumptions C02_closed_build_total_exact_verbose_partial.
